@@ -130,6 +130,15 @@ fn object_constructors(cx: &mut Ctx, eng: &mut Engine) {
         ("SigningKeyPair::gen_readonly_locked_keypair", || es(SigningKeyPair::<LockedRO<HeapByteArray<32>>, LockedRO<HeapByteArray<64>>>::gen_readonly_locked_keypair())),
         ("PrecalcSecretKey::precalculate_locked", || es(PrecalcSecretKey::precalculate_locked(&[9u8; 32], &[5u8; 32]))),
         ("PrecalcSecretKey::precalculate_readonly_locked", || es(PrecalcSecretKey::precalculate_readonly_locked(&[9u8; 32], &[5u8; 32]))),
+        // deserialisation into locked containers is a Result-returning constructor too
+        ("serde_json -> Locked<HeapByteArray<32>>", || es(serde_json::from_str::<Locked<HeapByteArray<32>>>(&serde_json::to_string(&vec![7u8; 32]).unwrap()))),
+        ("bincode -> Locked<HeapByteArray<32>>", || es(bincode::deserialize::<Locked<HeapByteArray<32>>>(&bincode::serialize(&vec![7u8; 32]).unwrap()))),
+        ("serde_json -> LockedBytes", || es(serde_json::from_str::<LockedBytes>(&serde_json::to_string(&vec![7u8; 300]).unwrap()))),
+        ("bincode -> LockedBytes", || es(bincode::deserialize::<LockedBytes>(&bincode::serialize(&vec![7u8; 300]).unwrap()))),
+        ("serde_json -> LockedKeyPair", || {
+            let js = format!("{{\"public_key\":{:?},\"secret_key\":{:?}}}", vec![7u8; 32], vec![9u8; 32]);
+            es(serde_json::from_str::<KeyPair<Locked<HeapByteArray<32>>, Locked<HeapByteArray<32>>>>(&js))
+        }),
     ];
     for (ei, (name, f)) in list.iter().enumerate() {
         if !cx.mine(1_000_000 + ei as u64) {
